@@ -151,6 +151,12 @@ def main(seed, tier):
         extras = gen_extra_attrs(rng, rng.choice([0, 0, 1, 3, 6]))
         aad = rng.choice([None, b"", b"ESXConfiguration", rng.randbytes(40)])
         order = rng.choice(["std", "shuffled", "reversed"])
+        if ci in (8, 9, 10):
+            # header block filled exactly (ci 8), one byte short of full (9), four bytes short (10): 512-byte file header + attributes + 4-byte
+            # terminator == 4096 leaves no padding at all
+            req_len = sum(len(pack_attr(*a)) for a in [("vmware.keyInfo", "str", 0, "0" * 36), ("vmware.cipherName", "str", 0, "AES-256-GCM"), ("vmware.keyHash", "bytes", 0, b"0" * 32), ("vmware.iv", "bytes", 0, iv)])
+            room = BLOCK - 512 - 4 - req_len - {8: 0, 9: 1, 10: 4}[ci]
+            extras = [("fill", "bytes", 0, rng.randbytes(room - (4 + 5 + 8)))]
         raw, spans, cls, attrs = build(rng, key, iv, payload, padding, extras, aad, order)
         rec = {"case": ci, "payload_len": n, "padding": padding, "n_attrs": len(attrs), "order": order, "aad": None if aad is None else aad.hex(), "attr_kinds": [a[1] for a in attrs]}
         out, got = attempt(raw, key, aad)
@@ -266,7 +272,7 @@ def main(seed, tier):
         if not ok:
             fail("keystore", detail, {"text": text})
     print(json.dumps({"evaluations": evals, "n_failures": sum(groups.values()), "groups": groups, "failures": failures, "observations_not_demanded": observations,
-                      "rule": "generated envelopes (payload 0..20000 bytes (+ >4 MiB thorough), padding 0..4095, 0..6 extra attributes of all 12 types in any order, aad none/empty/bytes): decrypt == payload, "
+                      "rule": "generated envelopes (payload 0..20000 bytes (+ >4 MiB thorough), padding 0..4095, 0..6 extra attributes of all 12 types in any order, header blocks filled exactly / one / four bytes short of full, aad none/empty/bytes): decrypt == payload, "
                               "attributes == stored; wrong key, altered aad and single-byte alterations of header, ciphertext, tag must raise; CLI writes exactly the payload; keystore texts in 12+ styles derive the specified key/id"}))
 
 
